@@ -6,7 +6,8 @@ ID = "C11"
 THM_MODULES = ["Minicbor.Thm.C11"]
 P = "Minicbor.C11."
 REQUIRED = [P + n for n in """token_progress tokenizer_bounded tokenizer_bounded' tokenize_item tokenize_encW
-    tokens_canonicalise tokens_of_preferred""".split()]
+    tokenize_encW_single token_value token_value_canon token_int_kinds tokens_canonicalise canon_spec tokens_of_preferred
+    tokens_roundtrip valueEq_loose half_roundtrip""".split()]
 PACKAGES = ["hcore"]
 RULE = ("tokdec <hex> / tokenc <tokens>: (a) well-formed item sequences from wire trees (preferred and non-preferred heads, indefinite containers, chunked strings): "
         "the token list must carry the data-model value of every head (oracle from the tree) and re-encoding the implementation's own tokens must give the preferred "
